@@ -44,10 +44,28 @@ func (r *detRand) Read(p []byte) (int, error) {
 type dkgMaterial struct {
 	T, K, N int
 	dkgs    map[string]*bls.DKG // by miner name
+	gen     string
+	sets    map[int]*dkgMaterial // material for other thresholds T, made on demand
+}
+
+// forT returns the material whose polynomials have degree t-1 (the contract's T of the running DKG).
+func (m *dkgMaterial) forT(w *world.World, t int) *dkgMaterial {
+	if t <= 0 || t == m.T {
+		return m
+	}
+	if m.sets == nil {
+		m.sets = map[int]*dkgMaterial{}
+	}
+	if s, ok := m.sets[t]; ok {
+		return s
+	}
+	s := makeDKGs(w, t, m.N, fmt.Sprintf("%s-t%d", m.gen, t))
+	m.sets[t] = s
+	return s
 }
 
 func makeDKGs(w *world.World, t, n int, gen string) *dkgMaterial {
-	m := &dkgMaterial{T: t, N: n, dkgs: map[string]*bls.DKG{}}
+	m := &dkgMaterial{T: t, N: n, dkgs: map[string]*bls.DKG{}, gen: gen}
 	for _, a := range w.Miners {
 		hbls.SetRandFunc(&detRand{seed: sha256.Sum256([]byte("verif-dkg:" + gen + ":" + a.Name))})
 		m.dkgs[a.Name] = bls.MakeDKG(t, n, a.ID)
@@ -236,9 +254,12 @@ func (m *dkgMaterial) spec(w *world.World, x *chainsim.Ctx, d dkgTxn, nonces map
 	}
 	nonces[a.ID]++
 	all := []string{"m0", "m1", "m2", "m3"}
+	m = m.forT(w, decodeVC(x.N.Leaves).T)
 	var fn string
 	var in any
 	switch d.kind {
+	case "raise-min-s": // the owner raises min_s above the number of sharders in the middle of a DKG
+		fn, in = "update_settings", map[string]any{"fields": map[string]string{"max_s": "3", "min_s": "3"}}
 	case "mpk":
 		fn, in = "contributeMpk", m.mpkInput(w, d.who, 0)
 	case "mpk-short":
@@ -272,6 +293,12 @@ func (m *dkgMaterial) spec(w *world.World, x *chainsim.Ctx, d dkgTxn, nonces map
 func vcRound(w *world.World, m *dkgMaterial, name string, maxDev int, honest bool, noPay bool, txs func(v *vcView) []dkgTxn) chainsim.Action {
 	applicable := func(x *chainsim.Ctx) bool {
 		if honest {
+			// one base script per path: H (all nodes honest), Hc2 (m2, m3 offline), Hp2 (m2, m3 go offline after contributing)
+			for _, p := range x.N.Path {
+				if strings.HasPrefix(p, "H") && p != name {
+					return false
+				}
+			}
 			return true
 		}
 		dev := 0
@@ -319,12 +346,16 @@ func vcRound(w *world.World, m *dkgMaterial, name string, maxDev int, honest boo
 }
 
 // honestTxs: what honest nodes send in a round, given the contract state.
-func honestTxs(w *world.World) func(v *vcView) []dkgTxn {
+func honestTxs(w *world.World) func(v *vcView) []dkgTxn { return honestSubset(w, 4, 4) }
+
+// honestSubset: only the first nc miners contribute a public key, only the first np of them
+// publish shares and confirm (the others are offline from then on); sharders are always honest.
+func honestSubset(w *world.World, nc, np int) func(v *vcView) []dkgTxn {
 	return func(v *vcView) []dkgTxn {
 		var out []dkgTxn
 		switch v.Phase {
 		case 1: // contribute
-			for _, a := range w.Miners {
+			for _, a := range w.Miners[:nc] {
 				if _, ok := v.Mpks[a.ID]; !ok && v.DKG[a.ID] {
 					out = append(out, dkgTxn{"mpk", a.Name})
 				}
@@ -339,13 +370,13 @@ func honestTxs(w *world.World) func(v *vcView) []dkgTxn {
 				}
 			}
 		case 3: // publish
-			for _, a := range w.Miners {
+			for _, a := range w.Miners[:np] {
 				if !v.Sos[a.ID] && v.DKG[a.ID] {
 					out = append(out, dkgTxn{"sos", a.Name})
 				}
 			}
 		case 4: // wait
-			for _, a := range w.Miners {
+			for _, a := range w.Miners[:np] {
 				if !v.Waited[a.ID] && v.DKG[a.ID] {
 					out = append(out, dkgTxn{"wait", a.Name})
 				}
